@@ -39,9 +39,12 @@ namespace engine
 
             void clear()
             {
+                // reset whole entries: a slot with key 0 must not keep a
+                // stale value (key 0 is a valid key, e.g. the pawn key of a
+                // position without pawns)
                 for (std::size_t i = 0; i < Size; ++i)
                 {
-                    data_[i].key = 0ULL;
+                    data_[i] = Entry{};
                 }
             }
 
